@@ -8,7 +8,8 @@
 // static_set / static_vector / inplace_string / sorted array at every fill up to full capacity x key sweep), HET (value-taking
 // algorithms on 1- and 2-byte element arrays with wider needles that are not representable in the element type), MIX (gcd,
 // lcm, cmp_*, in_range, saturate_cast over every mixed pair of integer types at the types' own limits), DUR (duration_cast /
-// floor / ceil / round among 32-bit durations where count * num exceeds INT32_MAX); HET, MIX, DUR are attached to the -O0
+// floor / ceil / round among 32-bit durations where count * num exceeds INT32_MAX), CAL (calendar types with field values
+// that are not ok()), DEG (algorithms with a count / middle iterator at 0, size, size+1, huge, on empty ranges); HET, MIX, DUR, CAL, DEG are attached to the -O0
 // harnesses only (one code path on this tree, the -O0 translation units compile in half the time), WSTR (every character type: char_traits,
 // string_view, inplace_string, strn*/wcsn*/wmem* on exact-size unterminated arrays).
 //
@@ -1273,6 +1274,276 @@ C13_DUR_F(t48000, dur::t48000)
     #define C13_HAVE_PART 1
 #endif
 
+// ================================================================== calendar field values that are not ok() (CAL), degenerate counts / positions (DEG)
+#if defined(C13_PART_CAL)
+// ok(), the accessors and the comparisons are defined for every field value the constructors accept (month, day < 255):
+// they must be constant expressions and agree with the run time for invalid dates as well.
+namespace cal {
+namespace ec = etl::chrono;
+constexpr auto ymd(int y, unsigned m, unsigned d) -> u64
+{
+    scen_hash h;
+    ec::year_month_day const a{ec::year{y}, ec::month{m}, ec::day{d}};
+    ec::year_month_day const b{ec::year{2024}, ec::month{2}, ec::day{29}};
+    h.add(a.ok());
+    h.add(static_cast<u64>(static_cast<long long>(int{a.year()})));
+    h.add(unsigned{a.month()});
+    h.add(unsigned{a.day()});
+    h.add(a == b);
+    h.add(a != b);
+    h.add(a == a);
+    h.add(a.year().ok());
+    h.add(a.month().ok());
+    h.add(a.day().ok());
+    h.add(a.year().is_leap());
+    ec::year_month const ym{a.year(), a.month()};
+    h.add(ym.ok());
+    h.add(ym == ec::year_month{b.year(), b.month()});
+    ec::year_month_day_last const l{a.year(), ec::month_day_last{a.month()}};
+    h.add(l.ok());
+    if (l.ok()) {
+        h.add(unsigned{l.day()});
+        h.add(ec::year_month_day{l}.ok());
+        h.add(ec::sys_days{ec::year_month_day{l}}.time_since_epoch().count()); // (year_month_day_last -> sys_days itself is not defined on this tree)
+    }
+    if (a.ok()) {
+        auto const sd = ec::sys_days{a};
+        h.add(sd.time_since_epoch().count());
+        h.add(ec::year_month_day{sd} == a);
+        h.add(ec::weekday{sd}.c_encoding());
+    }
+    return h.h;
+}
+constexpr auto md(unsigned m, unsigned d, unsigned w) -> u64
+{
+    scen_hash h;
+    ec::month_day const a{ec::month{m}, ec::day{d}};
+    h.add(a.ok());
+    h.add(unsigned{a.month()});
+    h.add(unsigned{a.day()});
+    h.add(a == ec::month_day{ec::month{2}, ec::day{29}});
+    h.add(a == a);
+    ec::month_day_last const l{ec::month{m}};
+    h.add(l.ok());
+    h.add(l == ec::month_day_last{ec::month{12}});
+    ec::weekday const wd{w};
+    ec::weekday_indexed const wi{wd, d % 8};
+    ec::weekday_last const wl{wd};
+    h.add(wd.ok());
+    h.add(wd.c_encoding());
+    h.add(wd.iso_encoding());
+    h.add(wd == ec::weekday{0U});
+    h.add(wi.ok());
+    h.add(wi.index());
+    h.add(wi.weekday() == wd);
+    h.add(wi == wi);
+    h.add(wl.ok());
+    h.add(wl.weekday() == wd);
+    ec::month_weekday const mw{ec::month{m}, wi};
+    h.add(mw.ok());
+    h.add(unsigned{mw.month()});
+    ec::month_weekday_last const mwl{ec::month{m}, wl};
+    h.add(mwl.ok());
+    h.add(ec::day{d}.ok());
+    h.add(ec::month{m}.ok());
+    h.add(ec::day{d} < ec::day{15});
+    h.add(ec::month{m} < ec::month{6});
+    h.add(ec::day{d} == ec::day{31});
+    return h.h;
+}
+constexpr auto ymw(int y, unsigned m, unsigned wi) -> u64
+{
+    scen_hash h;
+    ec::weekday const wd{wi & 15U};          // 0 .. 15
+    ec::weekday_indexed const wdi{wd, wi >> 4U}; // index 0 .. 15
+    ec::year_month_weekday const a{ec::year{y}, ec::month{m}, wdi};
+    h.add(a.ok());
+    h.add(static_cast<u64>(static_cast<long long>(int{a.year()})));
+    h.add(unsigned{a.month()});
+    h.add(a.index());
+    h.add(a.weekday().ok());
+    h.add(a.weekday_indexed().ok());
+    // (year_month_weekday -> sys_days is declared but not defined on this tree: not part of the check)
+    h.add(ec::year{y}.ok());
+    h.add(ec::year{y}.is_leap());
+    h.add(ec::year{y} < ec::year{0});
+    h.add(ec::year{y} == ec::year::min());
+    h.add(ec::year{y} == ec::year::max());
+    return h.h;
+}
+} // namespace cal
+C13_FN3(cal_ymd, "calendar.year_month_day", "chrono", int, unsigned, unsigned, (x >= -32768 && x <= 32767 && y < 255 && z < 255), kNoTag, cal::ymd(x, y, z))
+C13_FN3(cal_md, "calendar.month_day_weekday", "chrono", unsigned, unsigned, unsigned, (x < 255 && y < 255 && z < 256), kNoTag, cal::md(x, y, z))
+C13_FN3(cal_ymw, "calendar.year_month_weekday", "chrono", int, unsigned, unsigned, (x >= -32768 && x <= 32767 && y < 255 && z < 256), kNoTag, cal::ymw(x, y, z))
+    #define C13_HAVE_PART 1
+#endif
+#if defined(C13_PART_DEG)
+// Algorithms that take a count or a middle iterator, on an exact-size array of `len` elements (0 .. 6), with the count k in
+// {0, 1, len-1, len, len+1, 2*len, 1000, 2^40}: past-the-range pointers must never be formed, empty ranges must work.
+namespace deg {
+// The ranges are etl::array<int, N>::begin() .. end(): GCC's constant evaluator rejects pointer arithmetic that leaves such an
+// array (it does not for heap or plain local arrays), so forming first + n or last - n beyond the range is recorded.
+template <std::size_t N>
+struct Buf {
+    etl::array<int, N> a{};
+    int* p;
+    std::size_t n;
+    constexpr Buf() : p{a.begin()}, n{N}
+    {
+        for (std::size_t i = 0; i < N; ++i) { a[i] = static_cast<int>((i * 7 + 3) % 5) * 3 + 1; }
+    }
+    constexpr explicit Buf(std::size_t /*len*/) : Buf{} { }
+    Buf(Buf const&)                    = delete;
+    auto operator=(Buf const&) -> Buf& = delete;
+    constexpr void hash(scen_hash& h) const
+    {
+        for (std::size_t i = 0; i < n; ++i) { h.add(p[i]); }
+    }
+};
+template <std::size_t N>
+constexpr auto shift(long long k) -> u64;
+template <std::size_t N>
+constexpr auto counted(long long k) -> u64;
+template <std::size_t N>
+constexpr auto middle(long long k) -> u64;
+    #define C13_DEG_DISPATCH(F)                                                                                                                  \
+        constexpr auto F(std::size_t len, long long k) -> u64                                                                                    \
+        {                                                                                                                                        \
+            switch (len) {                                                                                                                       \
+            case 0: return F<0>(k);                                                                                                              \
+            case 1: return F<1>(k);                                                                                                              \
+            case 2: return F<2>(k);                                                                                                              \
+            case 3: return F<3>(k);                                                                                                              \
+            case 4: return F<4>(k);                                                                                                              \
+            case 5: return F<5>(k);                                                                                                              \
+            default: return F<6>(k);                                                                                                             \
+            }                                                                                                                                    \
+        }
+template <std::size_t N>
+constexpr auto shift(long long k) -> u64
+{
+    constexpr auto len = N;
+    scen_hash h;
+    {
+        Buf<N> b{};
+        auto* r = etl::shift_left(b.p, b.p + len, static_cast<std::ptrdiff_t>(k));
+        h.add(r - b.p);
+        if (k >= static_cast<long long>(len) || k == 0) { b.hash(h); } // nothing moved: every element is specified
+        else { for (auto* q = b.p; q != r; ++q) { h.add(*q); } }
+    }
+    {
+        Buf<N> b{};
+        auto* r = etl::shift_right(b.p, b.p + len, static_cast<std::ptrdiff_t>(k));
+        h.add(r - b.p);
+        if (k >= static_cast<long long>(len) || k == 0) { b.hash(h); }
+        else { for (auto* q = r; q != b.p + len; ++q) { h.add(*q); } }
+    }
+    return h.h;
+}
+template <std::size_t N>
+constexpr auto counted(long long k) -> u64 // k <= len for the writing algorithms
+{
+    constexpr auto len = N;
+    scen_hash h;
+    auto const n = static_cast<std::size_t>(k);
+    Buf<N> src{};
+    if (n <= len) {
+        Buf<N> dst{};
+        dst.n = n;
+        h.add(etl::copy_n(src.p, n, dst.p) - dst.p);
+        dst.hash(h);
+        h.add(etl::fill_n(dst.p, n, 9) - dst.p);
+        dst.hash(h);
+        int g = 0;
+        etl::generate_n(dst.p, n, [&g] { return ++g; });
+        dst.hash(h);
+        int sum = 0;
+        etl::for_each_n(src.p, n, [&sum](int v) { sum += v; });
+        h.add(sum);
+        h.add(etl::next(src.p, static_cast<std::ptrdiff_t>(n)) - src.p);
+        h.add(etl::prev(src.p + len, static_cast<std::ptrdiff_t>(n)) - src.p);
+        auto* it = src.p;
+        etl::advance(it, static_cast<std::ptrdiff_t>(n));
+        h.add(it - src.p);
+    }
+    int const* f = src.p;
+    h.add(etl::search_n(f, f + len, k > 1000 ? 1000 : static_cast<int>(k), 4) - f);   // count may exceed the range
+    h.add(etl::search_n(f, f + len, 0, 4) - f);
+    h.add(etl::search(f, f + len, f, f + (n <= len ? n : 0)) - f);                      // needle: a prefix, possibly empty
+    h.add(etl::find_end(f, f + len, f, f + (n <= len ? n : 0)) - f);
+    h.add(etl::equal(f, f + (n <= len ? n : 0), f));
+    h.add(etl::count(f, f + (n <= len ? n : 0), 4));
+    h.add(etl::accumulate(f, f + (n <= len ? n : 0), 0));
+    return h.h;
+}
+template <std::size_t N>
+constexpr auto middle(long long k) -> u64 // middle = first + k, k <= len
+{
+    constexpr auto len = N;
+    scen_hash h;
+    auto const m = static_cast<std::size_t>(k);
+    {
+        Buf<N> b{};
+        h.add(etl::rotate(b.p, b.p + m, b.p + len) - b.p);
+        b.hash(h);
+    }
+    {
+        Buf<N> b{};
+        Buf<N> d{};
+        h.add(etl::rotate_copy(static_cast<int const*>(b.p), static_cast<int const*>(b.p) + m, static_cast<int const*>(b.p) + len, d.p) - d.p);
+        d.hash(h);
+    }
+    {
+        Buf<N> b{};
+        etl::partial_sort(b.p, b.p + m, b.p + len);
+        for (std::size_t i = 0; i < m; ++i) { h.add(b.p[i]); }
+    }
+    {
+        Buf<N> b{};
+        etl::nth_element(b.p, b.p + m, b.p + len); // nth == last is allowed
+        if (m < len) { h.add(b.p[m]); }
+    }
+    {
+        Buf<N> b{};
+        etl::sort(b.p, b.p + m);
+        etl::sort(b.p + m, b.p + len);
+        etl::inplace_merge(b.p, b.p + m, b.p + len);
+        b.hash(h);
+        h.add(etl::is_sorted(b.p, b.p + len));
+    }
+    {
+        Buf<N> b{};
+        etl::reverse(b.p, b.p + m);
+        etl::reverse(b.p + m, b.p + len);
+        b.hash(h);
+        Buf<N> c{};
+        h.add(etl::swap_ranges(b.p, b.p + m, c.p) - c.p);
+        h.add(etl::copy_backward(static_cast<int const*>(b.p), static_cast<int const*>(b.p) + m, c.p + len) - c.p);
+        h.add(etl::move_backward(b.p, b.p + m, c.p + len) - c.p);
+        h.add(etl::unique(c.p, c.p + m) - c.p);
+        h.add(etl::remove(c.p, c.p + m, 4) - c.p);
+        h.add(etl::partition(c.p, c.p + m, [](int v) { return v > 5; }) - c.p);
+        h.add(etl::stable_partition(b.p, b.p + m, [](int v) { return v > 5; }) - b.p);
+        h.add(etl::min_element(b.p, b.p + m) - b.p);
+        h.add(etl::max_element(b.p + m, b.p + len) - b.p);
+        h.add(etl::is_sorted_until(b.p + m, b.p + len) - b.p);
+        h.add(etl::adjacent_find(b.p, b.p + m) - b.p);
+        h.add(etl::lower_bound(b.p + m, b.p + m, 3) - b.p); // empty range in the middle
+        h.add(etl::lexicographical_compare(b.p, b.p + m, b.p + m, b.p + len));
+        h.add(etl::mismatch(b.p, b.p + (m < len - m ? m : len - m), b.p + m).first - b.p);
+    }
+    return h.h;
+}
+C13_DEG_DISPATCH(shift)
+C13_DEG_DISPATCH(counted)
+C13_DEG_DISPATCH(middle)
+} // namespace deg
+C13_FN2(deg_shift, "degenerate.shift", "algorithm", unsigned, long long, (x <= 6 && y >= 0), kNoTag, deg::shift(x, y))
+C13_FN2(deg_counted, "degenerate.counted", "algorithm", unsigned, long long, (x <= 6 && y >= 0), kNoTag, deg::counted(x, y))
+C13_FN2(deg_middle, "degenerate.middle", "algorithm", unsigned, long long, (x <= 6 && y >= 0 && y <= static_cast<long long>(x)), kNoTag, deg::middle(x, y))
+    #define C13_HAVE_PART 1
+#endif
+
 // ================================================================== scenario digests (SCEN) and full-capacity container probes (CONT)
 #if defined(C13_PART_SCEN) || defined(C13_PART_CONT)
 // A scenario is a constexpr function that derives a fixed-length, valid-by-construction operation history from a 64-bit
@@ -2115,7 +2386,7 @@ C13_SCEN(array_bitset)
 } // namespace c13
 
 #if !defined(C13_HAVE_PART) || !defined(C13_GEN_HEADER)
-    #error "compile with -DC13_PART_<CM64|CM32|CMLD|INT8|NUM8|W1632|W64|CSTR|WSTR|SCEN|CONT|HET|MIX|DUR> (one or more) and -DC13_GEN_HEADER=\"C13_gen_<part>.hpp\""
+    #error "compile with -DC13_PART_<CM64|CM32|CMLD|INT8|NUM8|W1632|W64|CSTR|WSTR|SCEN|CONT|HET|MIX|DUR|CAL|DEG> (one or more) and -DC13_GEN_HEADER=\"C13_gen_<part>.hpp\""
 #endif
 #include C13_GEN_HEADER
 
@@ -2198,7 +2469,7 @@ void vf_run(vf::Ctx& c)
             vf::eval(s.sub);
             auto const cl = s.classes(k.a);
             label_classes(s, cl);
-            if ((cl & (kZero | kDenormal | kTie | kBig | kInfNan | kHighBit | kNegative | kTopBit)) != 0 || std::string_view(s.sub) == "scenario" || std::string_view(s.sub) == "container") {
+            if ((cl & (kZero | kDenormal | kTie | kBig | kInfNan | kHighBit | kNegative | kTopBit)) != 0 || std::string_view(s.sub) == "scenario" || std::string_view(s.sub) == "container" || std::string_view(s.sub) == "algorithm") {
                 vf::nontrivial_count();
                 vf::sample(s.sub, [&] { return std::string(s.fname) + "(" + s.show_args(k.a) + ") = " + s.show_res(ct[i].v); });
             }
